@@ -106,8 +106,22 @@ class ReprObject:
 
     __slots__ = ("_value",)
 
+    # one instance per value, also after pickling: sentinels are compared by identity
+    _instances: dict = {}
+
+    def __new__(cls, value: str):
+        try:
+            return cls._instances[(cls, value)]
+        except KeyError:
+            obj = super().__new__(cls)
+            cls._instances[(cls, value)] = obj
+            return obj
+
     def __init__(self, value: str):
         self._value = value
+
+    def __reduce__(self):
+        return (type(self), (self._value,))
 
     def __repr__(self) -> str:
         return self._value
